@@ -372,6 +372,18 @@ class StandaloneServer:
                 self.banner += self.p.stdout.read() or b""
                 break
 
+        # keep draining the server's stdout: code exec'd by the server prints there, a full pipe would block it
+        import threading
+
+        def drain():
+            try:
+                while os.read(self.p.stdout.fileno(), 65536):
+                    pass
+            except OSError:
+                pass
+
+        threading.Thread(target=drain, daemon=True).start()
+
     def ok(self):
         return self.p.poll() is None and b"Entering Accept loop" in self.banner
 
